@@ -1121,13 +1121,33 @@ def analyze_case(case):
     def fail(msg): res['failures'].append(('C19', msg))
     try:
         rnd = random.Random(case['id'] * 7919 + 13)
-        repo, marks = build_repo(case, root, bare=(case['id'] % 5 == 4))
+        repo, marks = build_repo(case, root, bare=(case['id'] % 5 == 4), sha256=(case['id'] % 8 == 7))
         if case['id'] % 5 == 4:
             count('bare')
+        if case['id'] % 8 == 7:
+            count('sha256-repository')
         if not refs(repo):
             count('empty-repository')
             return res
-        fx = augment_for_analysis(repo, rnd, count)
+        if case['id'] % 9 == 4:
+            # a history without a single blob anywhere in the object store: commits of the empty tree only (the usual
+            # "empty initial commit"), with a merge, an octopus, branches and tags - commits, parents and refs still count
+            repo = os.path.join(root, 'blobless')
+            subprocess.run(['git', 'init', '-q', repo], check=True, env=GIT_ENV, stdout=subprocess.DEVNULL)
+            et = _mktree(repo, [])
+            e1 = _plumb_commit(repo, et, [], b'empty root\n')
+            e2 = _plumb_commit(repo, et, [e1], b'empty child\n')
+            e3 = _plumb_commit(repo, et, [], b'second empty root\n')
+            e4 = _plumb_commit(repo, et, [e2, e3] + ([e1] if case['id'] % 2 == 0 else []), b'merge of nothing\n')
+            git(repo, 'update-ref', 'refs/heads/main', e4)
+            git(repo, 'update-ref', 'refs/heads/side', e3)
+            git(repo, 'tag', 'v0', e2)
+            git(repo, 'tag', '-a', '-m', 'annotated', 'v1', e4)
+            git(repo, 'update-ref', 'refs/notes/x', e1)
+            fx = dict(unreachable=set(), dup=False)
+            count('history-without-any-blob')
+        else:
+            fx = augment_for_analysis(repo, rnd, count)
         mode_flags = []
         if case['id'] % 6 == 5 and case['id'] % 5 != 4:
             # a clone whose upstream moved on and that has local-only work; options that matter only to filtering must stay inert
@@ -1395,6 +1415,12 @@ def detect_case(case):
         c2 = _plumb_commit(repo, _mktree(repo, [('100644', 'blob', _blob(repo, b'clean\n'), b'readme')]), [c1], b'remove secrets\n')
         git(repo, 'update-ref', 'refs/heads/work', c2)
         count('token-in-deleted-file')
+        # (a2) the same tokens once more inside a binary blob (NUL bytes around a copy of the text): the scan reports the
+        # values because of the text blob, so the follow-up --replace-text has to remove them from this blob as well
+        if case['id'] % 2 == 1:
+            twin = b'\x00\x89BIN\x00\x01' + git(repo, 'cat-file', 'blob', b1) + b'\x00\xff\x00'
+            git(repo, 'update-ref', 'refs/heads/bintwin', _plumb_commit(repo, _mktree(repo, [('100644', 'blob', _blob(repo, twin), b'twin.bin')]), [c1], b'binary twin\n'))
+            count('reported-value-also-in-a-binary-blob')
         # (b) a commit reachable only from a tag
         if len(fams) > 2:
             b2 = make_blob(fams[2:4], 'tag-only-commit')
@@ -1469,6 +1495,36 @@ def detect_case(case):
                     fail(f'token of family {fam} ({matched!r}) planted in {where} is not reported')
         if any(needs for needs in (v.startswith('#') or '==>' in v or v.startswith('regex:') or v.startswith('glob:') for v in vals)):
             count('value-needing-escape')
+        # a listing child of the scan dies part-way (its output ends after K bytes, then a non-zero status or a signal):
+        # the scan must not report success for a listing it did not read to the end
+        if case['id'] % 3 != 2:
+            listing = git(repo, 'rev-list', '--objects', '--all')
+            cut = rnd.choice([0, 41, len(listing) // 3, len(listing) // 2, max(0, len(listing) - 60)])
+            saved = open(report, 'rb').read()
+            fenv = dict(GIT_ENV, PATH=make_shim(root) + os.pathsep + GIT_ENV.get('PATH', os.environ.get('PATH', '')), FRRS_SHIM_MODE='cutchild',
+                        FRRS_SHIM_CHILD='rev-list', FRRS_SHIM_CUT=str(cut), FRRS_SHIM_LOG=os.path.join(root, 'fault-shim.log'))
+            if case['id'] % 2 == 0:
+                fenv['FRRS_SHIM_SIG'] = rnd.choice(['KILL', 'TERM', 'SEGV'])
+            else:
+                fenv['FRRS_SHIM_RC'] = rnd.choice(['128', '1', '141'])
+            rcf, _, errf, _ = run_tool(repo, args, env=fenv)
+            faulted = os.path.exists(fenv['FRRS_SHIM_LOG']) and 'FAULT rev-list' in open(fenv['FRRS_SHIM_LOG']).read()
+            if faulted:
+                count('scan-with-dying-rev-list')
+                if rcf == 0:
+                    try:
+                        valsf = parse_detected(report) if os.path.exists(report) else []
+                    except ValueError:
+                        valsf = []
+                    missing = [v for v in vals if v not in valsf]
+                    if missing and len(vals) < 500:
+                        fail(f'git rev-list died after {cut} of {len(listing)} bytes of its listing ({fenv.get("FRRS_SHIM_SIG") or "status " + fenv.get("FRRS_SHIM_RC", "")}) and --detect-secrets exited 0'
+                             f', reporting {len(valsf)} values where the complete scan reports {len(vals)} (missing e.g. {missing[0]!r}, which is in a reachable text blob)')
+                    else:
+                        count('scan-with-dying-rev-list-exit-0-but-complete')
+            else:
+                count('scan-fault-not-delivered')
+            open(report, 'wb').write(saved)
         # the loop: --replace-text with the generated file, then rescan
         rules = os.path.join(root, 'rules.txt')
         shutil.copy(report, rules)
@@ -1549,6 +1605,14 @@ if [[ " $* " == *" fast-export "* ]] && [ "$MODE" = cutexport ] && [[ " $* " != 
   "$R" "$@" | FRRS_RELAY_ROLE=fast-export python3 "$(dirname "$0")/relay.py" "$FRRS_SHIM_CUT"
   [ -n "$FRRS_SHIM_LOG" ] && echo "FAULT fast-export rc=${FRRS_SHIM_RC:-1}" >> "$FRRS_SHIM_LOG"
   exit ${FRRS_SHIM_RC:-1}
+fi
+if [ "$MODE" = cutchild ] && [ -n "$FRRS_SHIM_CHILD" ] && [[ " $* " == *" $FRRS_SHIM_CHILD "* ]] && [ -p /dev/stdout ]; then
+  # a listing child (rev-list, cat-file, log, for-each-ref ...) dies part-way: its output ends after CUT bytes, then it
+  # exits with RC or from a signal
+  "$R" "$@" | FRRS_RELAY_ROLE=fast-export python3 "$(dirname "$0")/relay.py" "$FRRS_SHIM_CUT"
+  [ -n "$FRRS_SHIM_LOG" ] && echo "FAULT $FRRS_SHIM_CHILD output ends after $FRRS_SHIM_CUT bytes rc=${FRRS_SHIM_RC:-128} sig=$FRRS_SHIM_SIG" >> "$FRRS_SHIM_LOG"
+  [ -n "$FRRS_SHIM_SIG" ] && kill -$FRRS_SHIM_SIG $$
+  exit ${FRRS_SHIM_RC:-128}
 fi
 case "$MODE" in slow) sleep 0.05 ;; *) sleep 0.01 ;; esac
 if [ -p /dev/stdin ] && [ -p /dev/stdout ]; then
